@@ -182,6 +182,20 @@ func main() {
 	for _, s := range skipped {
 		fmt.Printf("UNREWRITTEN %s\n", s)
 	}
+	// a construct every occurrence of which was given a seam by R4 is not "unsimulated" in this mode
+	var left []string
+	for _, u := range unsim {
+		all := len(unsimPos[u]) > 0
+		for _, ps := range unsimPos[u] {
+			if !handledPos[ps] {
+				all = false
+			}
+		}
+		if !all {
+			left = append(left, u)
+		}
+	}
+	unsim = left
 	sort.Strings(unsim)
 	for i, u := range unsim {
 		if i == 0 || u != unsim[i-1] {
@@ -206,6 +220,8 @@ func main() {
 // simulator has no seam for in the given package (the worlds compare the list
 // with a committed baseline and say so when the tree under test has new ones).
 var unsim []string
+var unsimPos = map[string][]string{} // entry -> source positions of its occurrences
+var handledPos = map[string]bool{}   // positions of select statements R4 rewrote
 
 func scanUnsimulated(p *packages.Package, f *ast.File, relf string) {
 	rel := pkgRel(p)
@@ -219,7 +235,9 @@ func scanUnsimulated(p *packages.Package, f *ast.File, relf string) {
 		return "?"
 	}
 	add := func(kind string, n ast.Node) {
-		unsim = append(unsim, fmt.Sprintf("%s %s.%s", kind, rel, fnName(n)))
+		u := fmt.Sprintf("%s %s.%s", kind, rel, fnName(n))
+		unsim = append(unsim, u)
+		unsimPos[u] = append(unsimPos[u], pos(p, relf, n))
 	}
 	ast.Inspect(f, func(n ast.Node) bool {
 		switch x := n.(type) {
@@ -551,6 +569,7 @@ func rewriteConcurrency(p *packages.Package, f *ast.File, relf string, sites *[]
 				skipped = append(skipped, pos(p, relf, x)+" (select statement: "+why+")")
 				return false
 			}
+			handledPos[pos(p, relf, x)] = true
 			c.Replace(sw)
 			return true // bodies may contain further channel operations
 		case *ast.GoStmt:
